@@ -2063,6 +2063,7 @@ class UPPDDLReader:
                         and metric_exp == self._totalcost
                     ):
                         costs: Dict[up.model.Action, up.model.Expression] = {}
+                        use_plan_length = True
                         problem._fluents.remove(self._totalcost.fluent())
                         if self._totalcost in problem._initial_value:
                             problem._initial_value.pop(self._totalcost)
